@@ -276,6 +276,44 @@ spec('alloc-dedup-combined-name-no-lookup', ['C09', 'C11'], 'ALLOC-DEDUP', 'ALLO
           on_name(len, name.clone());
           final_name_index = len as i64;
           name_index_mapping.insert(name_index, final_name_index);''')])
+spec('prefix-sum-append-counts-chars', ['C04', 'C10', 'C11', 'C19'], 'PREFIX-SUM', "PREFIX-SUM:rope::Rope::<'a>::append", [
+    (ROPE, '''        for &(chunk, _) in other.iter() {
+          cur.push((chunk, len));
+          len += chunk.len();
+        }
+      }
+      (Repr::Full(s), Repr::Light(other)) => {''', '''        for &(chunk, _) in other.iter() {
+          cur.push((chunk, len));
+          len += chunk.chars().count();
+        }
+      }
+      (Repr::Full(s), Repr::Light(other)) => {''')])
+spec('prefix-sum-from-iter-counts-chars', ['C04', 'C10', 'C11', 'C19'], 'PREFIX-SUM', 'PREFIX-SUM:<rope::Rope', [
+    (ROPE, '''        let cur = (chunk, len);
+        len += chunk.len();
+        Some(cur)''', '''        let cur = (chunk, len);
+        len += chunk.chars().count();
+        Some(cur)''')])
+spec('slice-order-rope-unguarded-copy', ['C17'], 'SLICE-ORDER', 'SLICE-ORDER:<replace_source::ReplaceSource<T> as source::Source>::rope', [
+    (RS, '''      if inner_pos < replacement.start {
+        let end_pos = (replacement.start as usize).min(inner_source_code.len());
+        let slice = inner_source_code.byte_slice(inner_pos as usize..end_pos);
+        source_code.append(slice);
+      }''', '''      {
+        let end_pos = (replacement.start as usize).min(inner_source_code.len());
+        let slice = inner_source_code.byte_slice(inner_pos as usize..end_pos);
+        source_code.append(slice);
+      }''')])
+spec('clamp-order-source-uses-clamp', ['C17'], 'CLAMP-ORDER', 'CLAMP-ORDER:<replace_source::ReplaceSource<T> as source::Source>::source', [
+    (RS, '''      source_code.push_str(&replacement.content);
+      #[allow(clippy::manual_clamp)]
+      {
+        inner_pos = inner_pos
+          .max(replacement.end)
+          .min(inner_source_code.len() as u32);
+      }''', '''      source_code.push_str(&replacement.content);
+      inner_pos =
+        inner_pos.clamp(replacement.end, inner_source_code.len() as u32);''')])
 spec('root-lines-final-raw-name', ['C08'], 'ROOT', 'ROOT:helpers::stream_chunks_of_source_map_lines_final', [
     (HP, '''      get_source(source_map, source),
       source_map.get_source_content(i).map(Rope::from),
